@@ -5,8 +5,8 @@ import DarkluaModel.Rules.InjectValue
 # C17 — rule dispatch and the decidable hypotheses of the partial theorems
 
 `Rule` = the three rules with their parameters. `applyRule` runs the models of `Rules/*.lean`.
-`defects` runs an instrumented, NON-rewriting processor with the same matcher and the same
-identifier tracker over the same visitor and lists which known defect regions a program touches
+`defects` reads the instrumentation flags of the model's own traversal: which known defect regions the
+rewriting meets, including in nodes produced by earlier rewrites
 (the local hypotheses of the `_partial` theorems in `Thm.lean`, evaluated at every node):
 
 | flag | region | finding |
@@ -33,111 +33,12 @@ def applyRule : Rule → Block → Option Block
   | .removeDebugProfiling p, b => let (b', um) := RemoveDebugProfiling.apply p b; if um then none else some b'
   | .injectGlobalValue n v, b => some (InjectValue.apply n v b)
 
-structure HSt where
-  scopes : Scopes := []
-  flags : List String := []
-
-def HSt.flag (st : HSt) (f : String) : HSt :=
-  if st.flags.contains f then st else { st with flags := st.flags ++ [f] }
-
-/-- a matched call (no method) -/
-def isMatchedCall (M : Matcher) (sc : Scopes) : Expr → Bool
-  | .call f none _ _ => M.matchesPrefix (isUsed sc) f
-  | _ => false
-
-def lastPositional : List Entry → Option Expr
-  | [] => none
-  | [.pos v] => some v
-  | _ :: rest => lastPositional rest
-
-/-- instrumentation for the rules built on `RemoveFunctionCallProcessor`; `hasResult` = the
-matcher has a `compute_result` (remove_assertions) -/
-def hypProcessor (M : Matcher) (hasResult : Bool) (watched : List String) : Processor HSt where
-  target := fun e st =>
-    match e with
-    | .var n => (e, if watched.contains n && !isUsed st.scopes n then st.flag "global-write" else st)
-    | .field (.var n) _ => (e, if n == "debug" && watched.contains n && !isUsed st.scopes n then st.flag "global-write" else st)
-    | _ => (e, st)
-  stmtNode := fun s st =>
-    match s with
-    | .function (root :: _) _ _ => (s, if watched.contains root && !isUsed st.scopes root then st.flag "global-write" else st)
-    | _ => (s, st)
-  stmt := fun s st =>
-    match s with
-    | .callStmt (.call f none kind args) =>
-      if M.matchesPrefix (isUsed st.scopes) f then
-        match expressionsAsStatement (preserveArgumentsSideEffects kind args) with
-        | .callStmt c => (s, if isMatchedCall M st.scopes c then st.flag "nested-single" else st)
-        | .localAssign _ _ _ => (s, st.flag "bare-local")
-        | _ => (s, st)
-      else (s, st)
-    | _ => (s, st)
-  expr := fun e st =>
-    match e with
-    | .call f none kind args =>
-      if M.matchesPrefix (isUsed st.scopes) f then
-        if hasResult then
-          match args with
-          | [] => (e, st.flag "zero-arg-expr")
-          | [a] => (e, if isMatchedCall M st.scopes a then st.flag "nested-single" else st)
-          | _ => (e, st)
-        else
-          (e, if (preserveArgumentsSideEffects kind args).length == 1 then st.flag "single-kept-expr" else st)
-      else (e, st)
-    | _ => (e, st)
-  node := fun e st =>
-    match e with
-    | .var "_" => (e, st.flag "underscore")
-    | .call _ _ .tuple args =>
-      match args.getLast? with
-      | some a => (e, if !hasResult && isMatchedCall M st.scopes a then st.flag "multi-position" else st)
-      | none => (e, st)
-    | .table entries =>
-      match lastPositional entries with
-      | some a => (e, if !hasResult && isMatchedCall M st.scopes a then st.flag "multi-position" else st)
-      | none => (e, st)
-    | _ => (e, st)
-  last := fun l st =>
-    match l with
-    | .ret es =>
-      match es.getLast? with
-      | some a => (l, if !hasResult && isMatchedCall M st.scopes a then st.flag "multi-position" else st)
-      | none => (l, st)
-    | _ => (l, st)
-  push := fun st => { st with scopes := pushScope st.scopes }
-  pop := fun st => { st with scopes := popScope st.scopes }
-  insert := fun n st => (n, { st with scopes := insertId n st.scopes })
-  insertSelf := fun st => { st with scopes := insertId "self" st.scopes }
-  insertLocal := fun n e st => ((n, e), { st with scopes := insertId n st.scopes })
-  insertLocalFn := fun n st => (n, { st with scopes := insertId n st.scopes })
-
-def hypInject (ident : String) : Processor HSt where
-  target := fun e st =>
-    match e with
-    | .var n => (e, if (n == ident || n == "_G") && !isUsed st.scopes n then st.flag "global-write" else st)
-    | .field (.var "_G") f => (e, if f == ident && !isUsed st.scopes "_G" then st.flag "global-write" else st)
-    | .index (.var "_G") (.str k) => (e, if k == ident.toUTF8.toList && !isUsed st.scopes "_G" then st.flag "global-write" else st)
-    | _ => (e, st)
-  stmtNode := fun s st =>
-    match s with
-    | .function (root :: _) _ _ => (s, if (root == ident || root == "_G") && !isUsed st.scopes root then st.flag "global-write" else st)
-    | _ => (s, st)
-  pref := fun p st =>
-    match p with
-    | .var n => (p, if n == ident && isUsed st.scopes ident then st.flag "shadowed-prefix" else st)
-    | _ => (p, st)
-  push := fun st => { st with scopes := pushScope st.scopes }
-  pop := fun st => { st with scopes := popScope st.scopes }
-  insert := fun n st => (n, { st with scopes := insertId n st.scopes })
-  insertSelf := fun st => { st with scopes := insertId "self" st.scopes }
-  insertLocal := fun n e st => ((n, e), { st with scopes := insertId n st.scopes })
-  insertLocalFn := fun n st => (n, { st with scopes := insertId n st.scopes })
-
-/-- raw flags of a program under a rule -/
+/-- raw flags met by the model's own traversal (`Rules/RemoveCallMatch.lean`, `Rules/InjectValue.lean`:
+the instrumentation never influences the tree) -/
 def flagsOf : Rule → Block → List String
-  | .removeAssertions _, b => (Visitor.runScoped (hypProcessor RemoveAssertions.matcher true ["assert", "select"]) b {}).2.flags
-  | .removeDebugProfiling _, b => (Visitor.runScoped (hypProcessor RemoveDebugProfiling.matcher false ["debug"]) b {}).2.flags
-  | .injectGlobalValue n _, b => (Visitor.runScoped (hypInject n) b {}).2.flags
+  | .removeAssertions p, b => (RemoveCallMatch.run RemoveAssertions.matcher p b).2.flags
+  | .removeDebugProfiling p, b => (RemoveCallMatch.run RemoveDebugProfiling.matcher p b).2.flags
+  | .injectGlobalValue n v, b => (InjectValue.run n v b).2.flags
 
 /-- the defect regions a program touches (`bare-local` / `underscore` only count together) -/
 def defects (r : Rule) (b : Block) : List String :=
